@@ -93,7 +93,7 @@ def _trafo_net(tct, side, model, cva):
         pp.create_transformer_from_parameters(
             net, b0, b1, 40, 110, 20, 0.3, 12, 20, 0.05, shift_degree=150, tap_side=side, tap_neutral=0, tap_min=-2, tap_max=2,
             tap_step_percent=(0 if tct == "Ideal" else 1.5), tap_step_degree=(2. if tct == "Ideal" else 0), tap_pos=1,
-            tap_changer_type=(None if tct == "None" else tct), parallel=2)
+            tap_changer_type=(None if tct == "None" else ("Ideal" if tct == "IdealPct" else tct)), parallel=2)
         pp.create_load(net, b1, 1., 0.5)
         pp.runpp(net, numba=False, calculate_voltage_angles=cva, trafo_model=model, lightsim2grid=False)
         _cache[key] = net
@@ -127,6 +127,9 @@ def make_trafo(tct, side, model, cva=True):
         elif tct == "Ideal":
             step = ctx.var("tap_step_degree", 0.1, 5.)
             vals["tap_step_degree"] = step
+        elif tct == "IdealPct":
+            step = ctx.var("tap_step_percent", 0.1, 3.)
+            vals["tap_step_percent"] = step
         for c, v in vals.items():
             setcol(ctx, net.trafo, c, [v])
         sn = ctx.var("net_sn_mva", 1., 1000.)
@@ -150,6 +153,15 @@ def make_trafo(tct, side, model, cva=True):
                 v_lv = vn_lv * ntap
         elif tct == "Ideal" and cva:
             theta = theta + (dtap * step if side == "hv" else -dtap * step)
+        elif tct == "IdealPct" and cva:
+            # ideal phase shifter defined by the voltage step in percent: angle = 2 asin(n * step / 200) (doc/elements/trafo.rst)
+            tt = dtap * step / 100 / 2
+            if ctx.symbolic:
+                from symx.core import arcsin_deg
+                a = arcsin_deg(tt)
+            else:
+                a = math.degrees(math.asin(float(tt)))
+            theta = theta + (2 * a if side == "hv" else -2 * a)
         ratio = (v_hv / v_lv) * (vb_lv / vb_hv)
         zn = vb_lv * vb_lv / sn                      # network base impedance on the LV side
         zt = v_lv * v_lv / sn_t                      # transformer base impedance (tap adjusted LV voltage)
@@ -229,9 +241,10 @@ def make_impedance():
 def instances(tier):
     out = [Inst("line", make_line(), nvars=20, samples=3, meta=dict(element="line")),
            Inst("impedance", make_impedance(), nvars=20, samples=3, meta=dict(element="impedance"))]
-    combos = [("None", "hv", "pi"), ("Ratio", "hv", "pi"), ("Ratio", "lv", "pi"), ("Ideal", "hv", "pi"), ("Ratio", "hv", "t")]
+    combos = [("None", "hv", "pi"), ("Ratio", "hv", "pi"), ("Ratio", "lv", "pi"), ("Ideal", "hv", "pi"), ("Ideal", "lv", "pi"),
+              ("IdealPct", "hv", "pi"), ("IdealPct", "lv", "pi"), ("Ratio", "hv", "t")]
     if tier == "thorough":
-        combos = [(t, s, m) for t in ("None", "Ratio", "Symmetrical", "Ideal") for s in ("hv", "lv") for m in ("pi", "t")]
+        combos = [(t, s, m) for t in ("None", "Ratio", "Symmetrical", "Ideal", "IdealPct") for s in ("hv", "lv") for m in ("pi", "t")]
     for tct, side, model in combos:
         out.append(Inst(f"trafo_{model}_{tct}_{side}", make_trafo(tct, side, model), nvars=30, samples=2, timeout_ms=60000,
                         meta=dict(element="trafo", trafo_model=model, tap_changer_type=tct, tap_side=side, calculate_voltage_angles=True),
